@@ -5,12 +5,13 @@ from fractions import Fraction
 
 from . import refnum as R
 from . import refparse
-from .common import Stats, Violation, hx, pmap, shim, finish, collect
+from .common import Stats, Violation, hx, pmap, shim, finish, collect, guard_task
 
 L5 = [0, 1, 1 << 31, (1 << 32) - 2, (1 << 32) - 1]
 L8 = L5 + [2, (1 << 31) - 1, 1 << 16]
 ISIZE_MAX = (1 << 63) - 1
 ISIZE_MIN = -(1 << 63)
+TIER = ['quick']
 
 
 # ------------------------------------------------------------------ C05
@@ -73,7 +74,7 @@ def _check_bop(st, prop, op, a, b, resp, where):
     """resp: eq eqrev eqneg is_pos is_zero to_int same [text]"""
     e = big_expected(op, a, b)
     st.inc('transitions')
-    case = {'kind': 'big_binop', 'op': op, 'a': str(a), 'b': str(b), 'where': where}
+    case = {'kind': 'big_binop', 'op': op, 'a': str(a), 'b': str(b), 'where': where, 'tier': TIER[0]}
     if resp.startswith('PANIC') or resp.startswith('ERR'):
         st.violate(Violation(prop, 'num', 'big:%s:panic' % op, case, str(e), resp))
         return None
@@ -100,6 +101,7 @@ def _check_bop(st, prop, op, a, b, resp, where):
     return e
 
 
+@guard_task('C05', 'num')
 def c05_rows(values, rows, text_bits):
     """all ops on (values[i], values[j]) for i in rows, all j"""
     st = Stats()
@@ -143,6 +145,7 @@ def c05_rows(values, rows, text_bits):
     return st
 
 
+@guard_task('C05', 'num')
 def c05_singles(vectors_k, limbs, text_bits):
     """from_vec normalisation on every raw vector (incl. leading zeros), neg/minus, constructor"""
     st = Stats()
@@ -180,6 +183,7 @@ def c05_singles(vectors_k, limbs, text_bits):
     return st
 
 
+@guard_task('C05', 'num')
 def c05_closure(seeds, depth2):
     """results of operations are kept as live registers and used as operands again"""
     st = Stats()
@@ -231,23 +235,29 @@ def c05_closure(seeds, depth2):
     return st
 
 
+def c05_seeds(tier):
+    if tier == 'quick':
+        return [0, 1, -1, 2, (1 << 32) - 1, 1 << 32, -(1 << 32) - 1, (1 << 64) - 1, 3, -7]
+    return [0, 1, -1, 2, 3, -7, 10, (1 << 31), (1 << 32) - 1, 1 << 32, (1 << 32) + 1, -(1 << 32) - 1,
+            (1 << 64) - 1, 1 << 64, -(1 << 63), (1 << 96) - 1, 6, -6, 1 << 16, (1 << 33) + 5,
+            -(1 << 64) - 1, 12345678901234567890, -4294967294, 4294967295 * 4294967295]
+
+
 def run_c05(tier):
+    TIER[0] = tier
     st = Stats()
     if tier == 'quick':
         values = big_values(3, L5)
         chunk = 4
         text_bits = 64
         single_k = 3
-        seeds = [0, 1, -1, 2, (1 << 32) - 1, 1 << 32, -(1 << 32) - 1, (1 << 64) - 1, 3, -7]
     else:
         values = sorted(set(big_values(4, L5)) | set(big_values(3, L8)),
                         key=lambda x: (abs(x).bit_length(), abs(x), x < 0))
         chunk = 2
         text_bits = 64
         single_k = 4
-        seeds = [0, 1, -1, 2, 3, -7, 10, (1 << 31), (1 << 32) - 1, 1 << 32, (1 << 32) + 1, -(1 << 32) - 1,
-                 (1 << 64) - 1, 1 << 64, -(1 << 63), (1 << 96) - 1, 6, -6, 1 << 16, (1 << 33) + 5,
-                 -(1 << 64) - 1, 12345678901234567890, -4294967294, 4294967295 * 4294967295]
+    seeds = c05_seeds(tier)
     tasks = [(values, list(range(i, min(i + chunk, len(values)))), text_bits) for i in range(0, len(values), chunk)]
     collect(st, pmap(c05_rows, tasks))
     collect(st, pmap(c05_singles, [(single_k, L5 if tier == 'quick' else L8, text_bits)]))
@@ -356,6 +366,7 @@ def _check_num_result(st, prop, sh_resps, it, v_exp, case, klass):
     pass
 
 
+@guard_task('C06', 'num')
 def c06_rows(pairs, rows, text_bits):
     st = Stats()
     sh = shim()
@@ -393,6 +404,7 @@ def c06_rows(pairs, rows, text_bits):
     return st
 
 
+@guard_task('C06', 'num')
 def c06_unary(pairs):
     st = Stats()
     sh = shim()
@@ -427,6 +439,7 @@ def c06_unary(pairs):
     return st
 
 
+@guard_task(0, 'num')
 def num_closure(prop, seeds, depth2, roundtrip):
     """closure BFS over live Num objects: results are re-used as operands.
     C06: values/canonical form.  C09 (roundtrip=True): text round trip of every value reached."""
@@ -508,7 +521,7 @@ def num_closure(prop, seeds, depth2, roundtrip):
             if resp != exp:
                 p = 'C09' if kind == 'nrt' else prop
                 st.violate(Violation(p, 'num', 'num:closure:%s:%s' % (op, kind),
-                                     {'kind': 'num_closure', 'op': op, 'a': R.num_text(a),
+                                     {'kind': 'num_closure', 'op': op, 'a': R.num_text(a), 'tier': TIER[0], 'prop': prop,
                                       'b': R.num_text(b) if b is not None or op in ('add', 'mul') else None,
                                       'observer': kind}, exp, resp))
         return new
@@ -541,6 +554,7 @@ CLOSURE_SEEDS_T = CLOSURE_SEEDS + [Fraction(-1, 3), Fraction(5, 2), Fraction(-7,
 
 
 def run_c06(tier):
+    TIER[0] = tier
     st = Stats()
     pairs = rat_alphabet(tier)
     nvals = len(set(Fraction(p, q) for p, q in pairs)) + 1
@@ -585,6 +599,7 @@ CALC_COUNTS = [0, 1, 2, 3, 5, 7, 10, (1 << 31) - 1]
 CALC_AREAS = ['♥?♡', '♥!♡', '?♡', '♥?', '!', '♥?💕!♡', '♥!💕?♡', '♥?💕?♡', '♥!💕!♡', '♥!?♡!💕', '♥', '']
 
 
+@guard_task('C07', 'num')
 def c07_rows(pairs, rows):
     st = Stats()
     sh = shim()
@@ -627,6 +642,7 @@ def leaf_code(leaf):
     return 0 if leaf is None else 2 + refparse.HEARTS.index(leaf)
 
 
+@guard_task('C07', 'num')
 def c07_calc(pairs):
     st = Stats()
     sh = shim()
@@ -667,6 +683,7 @@ def _c07_task(kind, pairs, rows):
 
 
 def run_c07(tier):
+    TIER[0] = tier
     st = Stats()
     pairs = rat_alphabet(tier) + CMP_EXTRA
     if tier != 'quick':
@@ -694,6 +711,7 @@ def run_c07(tier):
 
 # ------------------------------------------------------------------ C09
 
+@guard_task('C09', 'num')
 def c09_base(base, values):
     st = Stats()
     sh = shim()
@@ -754,6 +772,7 @@ def _c09_task(kind, a, b):
 
 
 def run_c09(tier):
+    TIER[0] = tier
     st = Stats()
     tasks = [('base', b, tier) for b in range(2, 37)]
     tasks.append(('closure', CLOSURE_SEEDS if tier == 'quick' else CLOSURE_SEEDS_T, True))
@@ -780,6 +799,26 @@ def replay(case):
     """re-run one recorded case; returns (expected, observed) texts"""
     sh = shim()
     k = case['kind']
+    if k == 'big_binop' and case.get('where') == 'closure':
+        # operands were live results of earlier operations: rebuild them by re-running the (deterministic) closure
+        TIER[0] = case.get('tier', 'quick')
+        st = c05_closure(c05_seeds(TIER[0]), True)
+        for v in st.violations:
+            if (v.case['op'], v.case['a'], v.case['b']) == (case['op'], case['a'], case['b']):
+                return v.expected, v.observed
+        hit = [v for v in st.violations if v.case['op'] == case['op']]
+        if hit:
+            return hit[0].expected, hit[0].observed
+        return 'closure clean', 'closure clean'
+    if k == 'num_closure':
+        TIER[0] = case.get('tier', 'quick')
+        seeds = CLOSURE_SEEDS if TIER[0] == 'quick' else CLOSURE_SEEDS_T
+        st = num_closure(case.get('prop', 'C06'), seeds, True, roundtrip=True)
+        for v in st.violations:
+            if v.case.get('op') == case['op'] and v.case.get('a') == case['a'] and v.case.get('b') == case.get('b') \
+                    and v.case.get('observer') == case.get('observer'):
+                return v.expected, v.observed
+        return 'closure clean', 'closure clean'
     if k == 'big_binop':
         a, b = int(case['a']), int(case['b'])
         e = big_expected(case['op'], a, b)
@@ -850,6 +889,8 @@ def replay(case):
     if k == 'num_roundtrip':
         sh.call('num', 'nnan', 0)
         return 'NaN round trip', sh.call('num', 'nrt', 0)
+    if k == 'shim_request':
+        return 'see: request depends on register state (re-run the check)', ''
     return 'unknown case kind', ''
 
 
